@@ -375,11 +375,10 @@ impl TransactionCoordinator {
         // xmin is the smallest active transaction ID (or our ID if none active)
         let xmin = active.iter().min().copied().unwrap_or(txid);
 
-        // xmax is the last committed transaction from PageZero
-        let xmax = {
-            let last = self.get_last_committed();
-            if last == 0 { None } else { Some(last) }
-        };
+        // xmax is the last committed transaction from PageZero.
+        // It is always a bound: with `None` every transaction id that is neither active nor aborted counts as
+        // committed before the snapshot, including transactions that begin (and commit) after it was taken.
+        let xmax = Some(self.get_last_committed());
 
         Ok(Snapshot::new(txid, xmin, xmax, active, aborted))
     }
